@@ -321,3 +321,8 @@ func LegacyAddress(pk []byte) []byte {
 	h2 := sha256.Sum256(pre)
 	return append(pre, h2[28:]...)
 }
+
+// MsgDigits returns the 67 base-16 digits for (R, root, idx, msg).
+func MsgDigits(hf Hash, R, root []byte, idx uint32, msg []byte) []int {
+	return Digits(NewWOTS(16), msgHash(hf, R, root, idx, msg))
+}
